@@ -19,7 +19,7 @@ import sys
 import time
 
 ROOT = '/verif'
-REPO = '/repo'
+REPO = os.environ.get('VERIF_REPO', '/repo')   # experiments may point the checks at a scratch copy of the repository
 COQ = os.path.join(ROOT, 'coq')
 DRIVERS = os.path.join(ROOT, 'ocaml', '_build')
 GUARD = 'EVENTPP_VERIF'
